@@ -43,7 +43,11 @@ def renderSnapshot (w : World) (res : String) : String :=
   let m := joinOr "," (rows.map fun (n, r) => s!"{n}:{showOpt r.q}:{showOpt r.s}:{showOpt r.d}:{showOpt r.e}")
   let rx := joinOr "," ((sortByName w.rx).map fun (n, b, st) => s!"{n}:{showBatch b}:{st}")
   let lg := joinOr "," ((sortByName w.log).map fun (n, k, c) => s!"{n}:{k}:{c}")
-  s!"{res} | ams={ams} | held={held} | m={m} | rx={rx} | log={lg}"
+  let preL : List (String × Unit) :=
+    (w.zombies.filter (·.2.pre.isSome)).map (fun z => (z.1, ())) ++
+    (w.sets.flatMap fun st => (st.loops.filter (·.pre.isSome)).map fun l => (nameOf st.tag l.e, ()))
+  let pre := joinOr "," ((sortByName preL).map (·.1))
+  s!"{res} | ams={ams} | held={held} | m={m} | rx={rx} | log={lg} | pre={pre}"
 
 def parseIds (s : String) : Option (List Nat) :=
   if s = "-" then some [] else (s.splitOn ",").mapM String.toNat?
@@ -70,6 +74,8 @@ inductive Op
   | send (ids : List Nat)
   | rel (name : String) (k : Nat) (v : Verdict)
   | stop (pat : String)
+  | park (name : String)
+  | unpark (name : String)
 
 def allDistinct : List String → Bool
   | [] => true
@@ -90,6 +96,8 @@ def parseOp (line : String) : Option Op :=
   | "send" :: ids => do pure (.send (← ids.mapM String.toNat?))
   | ["rel", n, k, v] => do pure (.rel n (← k.toNat?) (← parseVerdict v))
   | ["stop", pat] => some (.stop pat)
+  | ["park", n] => some (.park n)
+  | ["unpark", n] => some (.unpark n)
   | _ => none
 
 def defaultCfg : Cfg := ⟨4, 2, false⟩
@@ -125,6 +133,14 @@ def stepModel (w : World) (op : Option Op) : World × String :=
     if w.stopped then (w, renderSnapshot w "stopped") else
     let w := w.stop (patChars pat)
     (w, renderSnapshot w (drString w))
+  | some (.park nm) =>
+    match w.park nm with
+    | (w, true) => (w, renderSnapshot w "ok")
+    | (w, false) => (w, renderSnapshot w "none")
+  | some (.unpark nm) =>
+    match w.unpark nm with
+    | (w, none) => (w, renderSnapshot w "none")
+    | (w, some b) => (w, renderSnapshot w s!"unpark:{showBatch b}")
 
 def model (ops : List String) : List String :=
   let rec go (w : World) : List String → List String
@@ -146,6 +162,7 @@ structure Snap where
   m : List (String × Row)
   rx : List (String × List Nat × Nat)
   log : List (String × String × Nat)
+  pre : List String             -- loops parked between nextBatch() and the encoding of the batch
 
 def parseBatch (s : String) : Option (List Nat) :=
   if s = "-" then some [] else (s.splitOn ".").mapM String.toNat?
@@ -159,7 +176,7 @@ def stripPrefix? (s p : String) : Option String := if s.startsWith p then some (
 
 def parseSnap (out : String) : Option Snap :=
   match out.splitOn " | " with
-  | [res, ams, held, m, rx, lg] => do
+  | [res, ams, held, m, rx, lg, pre] => do
     let ams ← (stripPrefix? ams "ams=").bind fun s => parseList s some
     let held ← (stripPrefix? held "held=").bind fun s => parseList s fun t =>
       match t.splitOn ":" with
@@ -177,7 +194,8 @@ def parseSnap (out : String) : Option Snap :=
       match t.splitOn ":" with
       | [n, k, c] => do pure (n, k, ← c.toNat?)
       | _ => none
-    pure ⟨toks res, ams, held, m, rx, lg⟩
+    let pre ← (stripPrefix? pre "pre=").bind fun s => parseList s some
+    pure ⟨toks res, ams, held, m, rx, lg, pre⟩
   | _ => none
 
 /-- What the judge remembers about the loop currently running for one URL. -/
@@ -187,6 +205,8 @@ structure JLoop where
   taken : List Nat := []          -- alerts seen in this loop's batches at the gate, in order
   q : Nat := 0                    -- last reported queue length
   heldLive : List Nat := []       -- this loop's batch parked at the gate
+  pre : Option (List Nat) := none -- the loop is parked before encoding: the batch it must have taken (statement: the
+                                  -- oldest min(maxBatch, q) queued alerts at that moment), to be compared on arrival
   sentOk : Nat := 0               -- alerts of this loop in batches answered ok
   failed : Nat := 0               -- alerts of this loop in batches answered fail / err
   overflow : Nat := 0             -- drops reported by the queue-full / batch-too-big warnings
@@ -206,6 +226,7 @@ structure JSt where
   rxMax : List (String × Nat × Nat) := []                -- per delivery: URL, highest send position, op index
   heldAt : List (String × List Nat × Nat) := []          -- every parked batch with the op index of its arrival
   zombie : List (String × List Nat) := []                -- parked batches of loops that no longer run
+  zpre : List (String × List Nat) := []                  -- same for loops parked before the encoding (expected batch)
   polluted : List String := []                           -- URLs whose series were touched by a stopped loop's request
   deferred : Option String := none                       -- first finding that does not stop the judging
 
@@ -284,21 +305,9 @@ def orderVerdict (j : JSt) (k : Nat) (op : String) (viaRel : Bool) (d : Deliv) :
       else some (false, s!"violation order op={k} {op} loop={n} batch={showBatch b} delivered-after-later-alerts")
     else none
 
-/-- Clauses about one running loop after op `k`. Returns the updated loop and an optional deferred finding. -/
-def loopCheck (j : JSt) (s : Snap) (k : Nat) (op out : String) (sendIds : List Nat) (l : JLoop) :
-    Except String (JLoop × Option String) := do
-  let handed := survivors (survivors sendIds j.gdrops) (j.dropsOf l.name)
-  let l := { l with inn := l.inn ++ handed }
-  let heldNow : List (List Nat) := ((s.held.find? (·.1 == l.name)).map (·.2)).getD []
-  let zs := (j.zombie.filter (·.1 == l.name)).map (·.2)
-  let fresh := heldNow.filter fun b => b != l.heldLive && !zs.contains b
-  let row := rowOf s l.name
-  let qNow := (row.bind (·.q)).getD 0
-  let ov := (s.log.filter fun (e : String × String × Nat) => e.1 == l.name && (e.2.1 == "full" || e.2.1 == "big")).foldl (fun a x => a + x.2.2) 0
-  let l := { l with overflow := l.overflow + ov }
-  if fresh.length > 1 then throw s!"violation batch-content op={k} {op} loop={l.name} two-new-batches out={out}"
-  if !l.heldLive.isEmpty && !heldNow.contains l.heldLive then
-    throw s!"violation batch-content op={k} {op} loop={l.name} parked-batch-vanished out={out}"
+/-- A loop that is not parked before the encoding: a new batch of it may have arrived at the request gate. -/
+def loopTake (j : JSt) (k : Nat) (op : String) (l : JLoop) (handed : List Nat) (fresh : List (List Nat)) (qNow : Nat) :
+    Except String JLoop := do
   let newB := fresh.headD []
   if !fresh.isEmpty && !l.heldLive.isEmpty then
     throw s!"violation batch-content op={k} {op} loop={l.name} second-request-while-parked"
@@ -318,15 +327,63 @@ def loopCheck (j : JSt) (s : Snap) (k : Nat) (op out : String) (sendIds : List N
     pure { l with taken := l.taken ++ newB, heldLive := newB }
   if fresh.isEmpty && handed.isEmpty && qNow ≠ l.q then
     throw s!"violation queue-length op={k} {op} loop={l.name} changed-without-cause before={l.q} after={qNow}"
+  pure l
+
+/-- Clauses about one running loop after op `k`. Returns the updated loop and an optional deferred finding.
+    `unparked`: this op let the loop's goroutine, parked before the encoding, continue. -/
+def loopCheck (j : JSt) (s : Snap) (k : Nat) (op out : String) (sendIds : List Nat) (unparked : Option String) (l : JLoop) :
+    Except String (JLoop × Option String) := do
+  let handed := survivors (survivors sendIds j.gdrops) (j.dropsOf l.name)
+  let l := { l with inn := l.inn ++ handed }
+  let heldNow : List (List Nat) := ((s.held.find? (·.1 == l.name)).map (·.2)).getD []
+  let zs := (j.zombie.filter (·.1 == l.name)).map (·.2)
+  let fresh := heldNow.filter fun b => b != l.heldLive && !zs.contains b
+  let row := rowOf s l.name
+  let qNow := (row.bind (·.q)).getD 0
+  let ov := (s.log.filter fun (e : String × String × Nat) => e.1 == l.name && (e.2.1 == "full" || e.2.1 == "big")).foldl (fun a x => a + x.2.2) 0
+  let l := { l with overflow := l.overflow + ov }
+  if fresh.length > 1 then throw s!"violation batch-content op={k} {op} loop={l.name} two-new-batches out={out}"
+  if !l.heldLive.isEmpty && !heldNow.contains l.heldLive then
+    throw s!"violation batch-content op={k} {op} loop={l.name} parked-batch-vanished out={out}"
+  -- is this loop's goroutine reported parked between nextBatch() and the encoding?
+  let listed := s.pre.contains l.name && !(j.zpre.any (·.1 == l.name))
+  let qWant := if handed.isEmpty then l.q else min j.cap (l.q + handed.length)
+  let l ← match l.pre with
+    | some pb =>
+      -- the batch left the queue in an earlier op; whatever was added since must not have touched it
+      if qNow ≠ qWant then
+        throw s!"violation queue-length op={k} {op} loop={l.name} before={l.q} handed={handed.length} cap={j.cap} after={qNow} taken=0 batch-taken-not-yet-encoded"
+      if unparked == some l.name then
+        if fresh ≠ [pb] then
+          throw s!"violation batch-content op={k} {op} loop={l.name} batch={showBatch (fresh.headD [])} want={showBatch pb} request-differs-from-batch-taken"
+        pure { l with heldLive := pb, pre := none }
+      else
+        if !fresh.isEmpty then throw s!"violation batch-content op={k} {op} loop={l.name} second-request-while-parked"
+        if !listed then throw s!"violation batch-content op={k} {op} loop={l.name} taken-batch-vanished out={out}"
+        pure l
+    | none =>
+      if listed then
+        -- the loop took a batch during this op and is parked before encoding it: only its size is visible (the gauge)
+        if !fresh.isEmpty || !l.heldLive.isEmpty then
+          throw s!"violation batch-content op={k} {op} loop={l.name} second-request-while-parked"
+        let n := qWant - qNow
+        if qNow > qWant || n = 0 || n ≠ min j.mb qWant then
+          throw s!"violation queue-length op={k} {op} loop={l.name} before={qWant} after={qNow} taken={n} max={j.mb} batch-taken-not-yet-encoded"
+        let want := (lastN qWant l.untaken).take n
+        if want.length ≠ n then
+          throw s!"violation queue-length op={k} {op} loop={l.name} before={qWant} untaken={l.untaken.length}"
+        pure { l with taken := l.taken ++ want, pre := some want }
+      else loopTake j k op l handed fresh qNow
   let l := { l with q := qNow }
+  let inflight := l.heldLive.length + (l.pre.getD []).length
   match row with
   | none => throw s!"violation accounting op={k} {op} loop={l.name} metrics-missing"
   | some r =>
     let sN := r.s.getD 0; let dN := r.d.getD 0; let eN := r.e.getD 0
-    let bad1 := l.inn.length ≠ sN + dN + qNow + l.heldLive.length
+    let bad1 := l.inn.length ≠ sN + dN + qNow + inflight
     let bad2 := sN ≠ l.sentOk || eN ≠ l.failed || dN ≠ l.overflow + l.failed
     if bad1 || bad2 then
-      let msg := s!"op={k} {op} loop={l.name} in={l.inn.length} sent={sN}/{l.sentOk} dropped={dN}/{l.overflow}+{l.failed} errors={eN}/{l.failed} queued={qNow} inflight={l.heldLive.length}"
+      let msg := s!"op={k} {op} loop={l.name} in={l.inn.length} sent={sN}/{l.sentOk} dropped={dN}/{l.overflow}+{l.failed} errors={eN}/{l.failed} queued={qNow} inflight={inflight}"
       if j.polluted.contains l.name then pure (l, some s!"violation stale-metrics {msg} series-touched-by-stopped-loop")
       else throw s!"violation accounting {msg}"
     else pure (l, none)
@@ -345,7 +402,10 @@ def firstSome : List (Option α) → Option α
                     sent, sent before the loop existed), or an alert twice, or out of send order;
   * `batch-content` (drop-oldest + order) a batch taken by a running loop is not exactly the oldest
                     `min(maxBatch, q)` alerts among the newest `q` not-yet-taken alerts handed to the loop, `q`
-                    being the queue length reported before;
+                    being the queue length reported before; for a loop parked between `nextBatch()` and the
+                    encoding (`pre=`) that batch is fixed when it is taken (its size is checked against the
+                    gauge at once) and the request that later reaches the gate must carry exactly it, whatever
+                    was added, dropped on overflow, drained or stopped in between (in-flight batch unaffected);
   * `queue-length`  after a `send`, queue length + newly taken ≠ min(capacity, previous + handed over): an
                     alert was lost although the queue had room, or the queue exceeds its capacity;
   * `accounting`    for a running loop: handed over ≠ sent + dropped + queued + in flight (from the metrics),
@@ -377,6 +437,7 @@ def judgeStep (j : JSt) (k : Nat) (op out : String) : Except String JSt := do
   if drs.any (fun d => !(ended.any (·.name == d.1))) then throw s!"violation drain op={k} {op} unexpected-drain out={out}"
   let j := { j with loops := j.loops.filter (fun l => liveNames.contains l.name),
                     zombie := j.zombie ++ ended.filterMap fun (l : JLoop) => if l.heldLive.isEmpty then none else some (l.name, l.heldLive),
+                    zpre := j.zpre ++ ended.filterMap fun (l : JLoop) => l.pre.map fun b => (l.name, b),
                     stopped := j.stopped || isStop }
   let j := { j with loops := j.loops ++ (liveNames.filter fun n => !j.loops.any (·.name == n)).map fun n => ({ name := n } : JLoop) }
   let relInfo : Option Deliv := match pop with
@@ -414,9 +475,23 @@ def judgeStep (j : JSt) (k : Nat) (op out : String) : Except String JSt := do
             else l }
       else { j with zombie := j.zombie.filter (fun (z : String × List Nat) => !(z.1 == n && z.2 == b)), polluted := n :: j.polluted }
     | none => j
+  -- `unpark`: a stopped loop's goroutine (older) goes first; its request must carry the batch it took
+  let unparkNm : Option String := match pop with | some (.unpark nm) => some nm | _ => none
+  let zhit : Option (String × List Nat) := unparkNm.bind fun nm => j.zpre.find? (·.1 == nm)
+  if let some (nm, b) := zhit then
+    if !(((s.held.find? (·.1 == nm)).map (·.2)).getD []).contains b then
+      throw s!"violation batch-content op={k} {op} loop={nm} want={showBatch b} request-differs-from-batch-taken stopped-loop out={out}"
+  let j := match zhit with
+    | some (nm, b) => { j with zpre := j.zpre.filter (fun z => !(z.1 == nm && z.2 == b)), zombie := j.zombie ++ [(nm, b)] }
+    | none => j
+  let unparked : Option String := if zhit.isSome then none else unparkNm
   let sendIds := match pop with | some (.send ids) => if j.stopped then [] else ids | _ => []
   let j := { j with sentIds := j.sentIds ++ (match pop with | some (.send ids) => ids | _ => []) }
-  let res : List (JLoop × Option String) ← j.loops.mapM (loopCheck j s k op out sendIds)
+  let res : List (JLoop × Option String) ← j.loops.mapM (loopCheck j s k op out sendIds unparked)
+  -- a batch is in flight from the op in which it was taken, also while its loop is parked before the encoding
+  let newPre : List (String × List Nat × Nat) := res.filterMap fun (r : JLoop × Option String) =>
+    r.1.pre.bind fun b => if j.heldAt.any (fun h => h.1 == r.1.name && h.2.1 == b) then none else some (r.1.name, b, k)
+  let j := { j with heldAt := j.heldAt ++ newPre }
   let newHeld := s.held.flatMap fun (p : String × List (List Nat)) =>
     (p.2.filter fun b => !(j.heldAt.any fun h => h.1 == p.1 && h.2.1 == b)).map fun b => (p.1, b, k)
   pure { j with loops := res.map (·.1), heldAt := j.heldAt ++ newHeld,
